@@ -128,7 +128,7 @@ structure Loop where
   var : String
   schedule : String
   accs : List Acc
-deriving Repr
+deriving Repr, DecidableEq
 
 def Acc.arr? : Acc → Option (String × Idx)
   | .load a i => some (a, i)
@@ -224,5 +224,62 @@ def addF (x : Val) : List Val → Val := fun r => r.getLastD 0 + x
 /-- D-iteration's inner statement `fluid[j] += tmp * data[jj]` executed by two iterations on the same `j` -/
 def lostUpdateProg : Nat → List Ev := fun t =>
   if t < 2 then [.load ("fluid", 0), .store ("fluid", 0) (addF 1)] else []
+
+
+/-! ### the descriptors generated on the pinned tree (the instance theorems of `Properties/C16.lean` are about these;
+    the driver reports whether the descriptors generated from the working tree still coincide with them) -/
+
+/-- the first `prange` loop of `push_pagerank` as generated on the pinned tree (each vertex accumulates into its own
+    `residuals[vertex]`) -/
+def pushInitLoop : Loop :=
+  { name := "linalg/push.pyx:push_pagerank#0", var := "vertex", schedule := "static-default",
+    accs := [.load "rev_indptr" (.own 0), .load "rev_indptr" (.own 1), .call "range" true,
+             .load "rev_indices" (.indirect "j"), .load "degrees" (.indirect "neighbor"),
+             .load "residuals" (.own 0), .store "residuals" (.own 0), .load "seeds" (.own 0),
+             .priv "j", .priv "j1", .priv "j2", .priv "neighbor"] }
+
+/-- D-iteration's sweep as generated on the pinned tree -/
+def diterationLoop : Loop :=
+  { name := "linalg/diteration.pyx:diffusion#0", var := "i", schedule := "guided",
+    accs := [.load "fluid" (.own 0), .load "scores" (.own 0), .store "scores" (.own 0), .store "fluid" (.own 0),
+             .load "indptr" (.own 0), .load "indptr" (.own 1), .call "range" true,
+             .load "indices" (.indirect "jj"), .load "data" (.indirect "jj"),
+             .load "fluid" (.indirect "j"), .store "fluid" (.indirect "j"),
+             .priv "j", .priv "j1", .priv "j2", .priv "jj", .priv "removed", .priv "sent", .priv "tmp",
+             .reduction "residu" "-" false] }
+
+/-- the second `prange` loop of `push_pagerank` as generated on the pinned tree -/
+def pushNeighborLoop : Loop :=
+  { name := "linalg/push.pyx:push_pagerank#1", var := "j", schedule := "static-default",
+    accs := [.load "indices" (.own 0), .load "residuals" (.indirect "neighbor"), .load "residuals" (.fixed "vertex"),
+             .load "degrees" (.fixed "vertex"), .load "residuals" (.indirect "neighbor"),
+             .store "residuals" (.indirect "neighbor"), .load "residuals" (.indirect "neighbor"),
+             .method "worklist" "push" true, .priv "neighbor", .priv "tmp"] }
+
+def pinnedLoops : List Loop := [pushInitLoop, diterationLoop, pushNeighborLoop]
+
+/-! ### the first `prange` loop of `push_pagerank`, event for event
+
+```
+for vertex in prange(n, nogil=True):
+    j1 = rev_indptr[vertex]; j2 = rev_indptr[vertex + 1]
+    for j in range(j1, j2):
+        neighbor = rev_indices[j]
+        residuals[vertex] += 1 / degrees[neighbor]
+    residuals[vertex] *= (1 - damping_factor) * damping_factor * (1 + seeds[vertex])
+```
+The arithmetic is abstracted by the two store functions (any functions of the values loaded so far). -/
+
+def pushInitIter (revIndptr revIndices : List Nat) (acc scale : List Val → Val) (v : Nat) : List Ev :=
+  let j1 := revIndptr.getD v 0
+  let j2 := revIndptr.getD (v + 1) 0
+  [.load ("rev_indptr", v), .load ("rev_indptr", v + 1)] ++
+  ((List.range (j2 - j1)).flatMap fun k =>
+    [.load ("rev_indices", j1 + k), .load ("degrees", revIndices.getD (j1 + k) 0),
+     .load ("residuals", v), .store ("residuals", v) acc]) ++
+  [.load ("seeds", v), .load ("residuals", v), .store ("residuals", v) scale]
+
+def pushInitProg (n : Nat) (revIndptr revIndices : List Nat) (acc scale : List Val → Val) : Nat → List Ev :=
+  fun v => if v < n then pushInitIter revIndptr revIndices acc scale v else []
 
 end SkNet.ParFor
